@@ -9,7 +9,7 @@ from ..views import V
 from .. import corpus
 from .gen_access import hdr_field, level_geometry
 
-SERVES = {"C03", "C04", "C05", "C06", "C16", "C17", "C18", "C19", "C01", "C10"}
+SERVES = {"C03", "C04", "C05", "C06", "C15", "C16", "C17", "C18", "C19", "C01", "C10"}
 GH_N = [("unsigned long", "sbv_n")]
 SMALL = 1 << 16
 PB = ["kissat", "z3", "cvc5", "minisat"]
@@ -284,6 +284,45 @@ def visit_contracts(cs, tier):
     return out
 
 
+def set_enum_contracts(cs, tier):
+    sch, g, u = cs.schema, cs.gen, cs.unit
+    out = []
+    for idn, e in g.set_roots:
+        w = PRIMS[e.prim]["size"] * 8
+        mask = (1 << w) - 1
+        for nm, label in (("get", "named getters"), ("get_bytag", "get_by_tag")):
+            f = u.root("r_set_%s_%s" % (idn, nm))
+            s = f.p[0]
+            raw = "%s%s.%s" % (s, u.path_to(f.params[0]["rec"], "sbepp::detail::bitset_base"), u.field(u.rec(f.params[0]["rec"])["bases"][0]["cname"], 0))
+            post = [("%s-is-bit-%d" % (v[0], v[1]), "RET.c%d == (_Bool)(((uint64_t)%s >> %d) & 1)" % (i, raw, v[1])) for i, v in enumerate(e.values)]
+            out.append(Contract(f, "%s:set %s %s" % (cs.name, idn, label), props={"C15", "C19"} if nm == "get_bytag" else {"C15"}, pre=[], post=post, assigns=[]))
+        for nm, label in (("set", "named setters"), ("set_bytag", "set_by_tag")):
+            f = u.root("r_set_%s_%s" % (idn, nm))
+            s, x = f.p[0], f.p[1]
+            raw = "%s%s.%s" % (s, u.path_to(f.params[0]["rec"], "sbepp::detail::bitset_base"), u.field(u.rec(f.params[0]["rec"])["bases"][0]["cname"], 0))
+            clear = 0
+            for v in e.values:
+                clear |= 1 << v[1]
+            newbits = " | ".join("((uint64_t)(%s.c%d ? 1 : 0) << %d)" % (x, i, v[1]) for i, v in enumerate(e.values))
+            out.append(Contract(f, "%s:set %s %s" % (cs.name, idn, label), props={"C15", "C19"} if nm == "set_bytag" else {"C15"}, pre=[],
+                                post=[("each-setter-changes-exactly-its-bit", "RET == ((((uint64_t)%s & 0x%xULL) & ~0x%xULL) | %s)" % (raw, mask, clear, newbits))], assigns=[]))
+        f = u.root("r_set_%s_visit" % idn)
+        s = f.p[0]
+        raw = "%s%s.%s" % (s, u.path_to(f.params[0]["rec"], "sbepp::detail::bitset_base"), u.field(u.rec(f.params[0]["rec"])["bases"][0]["cname"], 0))
+        post = [("every-choice-once", "RET.n == %d" % len(e.values))]
+        for i, v in enumerate(e.values):
+            post.append(("callback-%d-is-%s-with-its-bit" % (i, v[0]), "RET.idx[%d] == %d && RET.val[%d] == (_Bool)(((uint64_t)%s >> %d) & 1)" % (i, v[1], i, raw, v[1])))
+        out.append(Contract(f, "%s:set %s visit" % (cs.name, idn), props={"C15", "C19"}, pre=[], post=post, assigns=[]))
+    for idn, e in g.enum_roots:
+        f = u.root("r_enum_%s_visit" % idn)
+        ev = f.p[0]
+        vals = [ord(v[1]) if e.prim == "char" else int(v[1]) for v in e.values]
+        isknown = " || ".join("(uint64_t)%s == %dULL" % (bits(e.prim, ev), x & ((1 << (8 * PRIMS[e.prim]["size"])) - 1)) for x in vals) or "0"
+        out.append(Contract(f, "%s:enum %s visit" % (cs.name, idn), props={"C19"}, pre=[],
+                            post=[("known-iff-valid-value", "RET.known == (_Bool)(%s)" % isknown), ("reports-the-value's-own-tag", "SPEC_IMPLIES(RET.known, RET.tag_value == %s)" % bits(e.prim, ev))], assigns=[]))
+    return out
+
+
 def sbc_contracts(cs, tier):
     """size_bytes_checked(view, n) on a buffer object of EXACTLY n bytes (any read at offset >= n is a CBMC pointer-check failure),
     unchecked assert configuration (the one in which this function is the only protection)"""
@@ -372,13 +411,46 @@ def sbc_contracts(cs, tier):
     return out
 
 
+def cvisit_contracts(cs, tier):
+    """visit_children of every composite: each non-constant member once, in schema order, with its own tag (name) and the accessor's value"""
+    sch, g, u = cs.schema, cs.gen, cs.unit
+    be = 1 if sch.big_endian else 0
+    out = []
+    by_ident = {li.ident: li for li in g.levels}
+    KIND = {"scalar": 4, "array": 4, "enum": 5, "set": 6, "composite": 7}
+    for idn in g.cvisit_roots:
+        li = by_ident[idn]
+        f = u.root("r_%s_cvisit" % idn)
+        vp, stop = f.p[0], f.p[1]
+        rec = f.params[0]["rec"]
+        vw = V(u, "(*%s)" % vp, rec)
+        wm = Gen.wire_members(li)
+        total = len(wm)
+        post = [("callbacks-made", "RET.v.n == (%s <= %d ? %s : %dUL)" % (stop, total, stop, total)), ("stops-as-soon-as-a-callback-returns-true", "RET.stopped == (_Bool)(%s <= %d)" % (stop, total))]
+        for j, (i, m) in enumerate(wm):
+            e = m["enc"]
+            A = m["offset"]
+            clause = "RET.v.kind[%d] == %d && %s" % (j, KIND[e.kind], cstr_eq("RET.v.name[%d]" % j, m["name"]))
+            if e.kind in ("scalar", "enum", "set"):
+                clause += " && RET.v.val[%d] == %s" % (j, load("%s + %d" % (vw.begin, A), PRIMS[e.prim]["size"], be))
+            else:
+                clause += " && RET.v.ptr[%d] == %s + %d" % (j, vw.begin, A)
+            post.append(("callback-%d-is-member-%s-with-its-tag-and-accessor-value" % (j, m["name"]), "SPEC_IMPLIES(%s > %d, %s)" % (stop, j, clause)))
+        out.append(Contract(f, "%s:%s::visit_children(composite)" % (cs.name, idn), props={"C19"}, ghosts=GH_N, mode="N", pre=[OBJ(vp, rec)] + vw.wf() + [ASSUME("%d <= sbv_n" % li.origin.size), ASSUME("%s >= 1" % stop)],
+                            post=post, assigns=[]))
+    return out
+
+
 def contracts(tier):
     out = []
+    for cs in corpus.schemas(tier):
+        out += cvisit_contracts(cs, tier)
     for cs in corpus.schemas(tier, asserts="unchecked"):
         if cs.name.endswith("_be") and tier != "thorough":
             continue
         out += sbc_contracts(cs, tier)
     for cs in corpus.schemas(tier):
+        out += set_enum_contracts(cs, tier)
         out += visit_contracts(cs, tier)
         out += scalar_type_contracts(cs, tier)
         out += cursor_contracts(cs, tier)
